@@ -50,7 +50,7 @@ CHECKS = {
     "C03": dict(
         engine="corr-trace",
         technique="Coq proof (for every schedule flat tests and clone sources are never executed: invariant over resume/run_schedule; rerun is granted only below max_tries) + trace refinement; the per-scope execution count is a monitor on the implementation's runs",
-        text=('PARTIAL. Proved for all graphs, pools and schedules: flat and clone-source nodes are never executed; should_rerun grants a rerun only while the counted results (in-flight placeholders included) are below max_tries; a stateless test without results runs once. Checked on the real code: executions per class and reuse scope <= max(1, max_tries) (unless an occupation bump occurred or max_concurrent_tries exceeds max_tries), setup found present at first examination is not executed, execution ids are not reused. A budget violation found this way (concurrent creation pre-steps) was repaired (fix: e60d612).'),
+        text=('PARTIAL. Proved for all graphs, pools and schedules: flat and clone-source nodes are never executed; should_rerun grants a rerun only while the counted results (in-flight placeholders included) are below max_tries; a stateless test without results runs once; for every graph, pool population and schedule a test that saves no state is started only with an identifier (= number of results on its class so far) below its budget max(1, max_tries) and is therefore executed on a node copy at most that often (C03_stateless_executions_within_budget, Proofs/TraverseUid.v; stateful tests, whose scan-triggered runs are not bounded by the counter alone, stay with the monitor). Checked on the real code: executions per class and reuse scope <= max(1, max_tries) (unless an occupation bump occurred or max_concurrent_tries exceeds max_tries), setup found present at first examination is not executed, execution ids are not reused. A budget violation found this way (concurrent creation pre-steps) was repaired (fix: e60d612).'),
         note=TRAV_NOTE,
         design="§5 C03"),
     "C04": dict(
@@ -80,7 +80,7 @@ CHECKS = {
     "C20": dict(
         engine="corr-pure",
         technique="Coq proof by induction over the chain (all steps run in order; return code 1 iff some step failed) + invariant over schedules (only the own worker executes a node) + correspondence: real Manu.run with stub steps (exhaustive up to length 3) and the real per-vm / per-worker tools under the selftests' job seam",
-        text=("Proved: chain theorems for any chain; C20_only_own_worker_partial for any schedule. Checked: Manu.run against the model for every chain of up to 3 outcomes over {None, 0, 1, 2, raise}; check/get/set/unset/push/pop/clean execute exactly once per selected vm and worker with the step's vm_action, boot/shutdown once per worker with all selected vms, nothing for unselected vms (evaluated by Check.C20.star_ok). PARTIAL: 'exactly once' is checked on the real tools, not proved for the traversal model."),
+        text=("Proved: chain theorems for any chain; C20_only_own_worker_partial for any schedule. Checked: Manu.run against the model for every chain of up to 3 outcomes over {None, 0, 1, 2, raise} and for chains that use a step several times; a tool whose tests fail returns a failure status; check/get/set/unset/push/pop/clean/collect/create execute exactly once per selected vm and worker with the step's vm_action, boot/shutdown once per worker with all selected vms, nothing for unselected vms (evaluated by Check.C20.star_ok). PARTIAL: 'exactly once' is checked on the real tools, not proved for the traversal model."),
         note=COMMON_NOTE + "The selftests' job seam (mock job, stub run_test_task with random short delays, recording door) stands for the avocado job and the remote state control.",
         design="§5 C20"),
     "C14": dict(
@@ -112,6 +112,10 @@ CHECKS = {
               "every runnable node; with the replay defaults a test is executed again iff it has no acceptable previous result (stateless) or a "
               "state it produces is missing (stateful); the uid suffixes handed out over any interleaving of starts and reports are pairwise "
               "distinct and the (name, uid) look-up returns the own result; the verdict is true iff every executed name has an OK result; the "
+              "same over the traversal model for EVERY graph, pool population and schedule (Proofs/TraverseUid.v): two executions of one node whose class "
+              "has no object-creation node carry strictly increasing identifiers (C10_identifiers_strictly_increase), a section starts at most one "
+              "execution, and every execution leaves one entry - result or pending placeholder - on its class (tied to the code by a batch of "
+              "retry-heavy traversals compared section by section inside this check; PARTIAL for object-creation nodes, whose two-step start is only monitored); the "
               "duration check never changes acceptability. Compared with the real should_rerun, default_run_decision, run_test_node (stub "
               "task) and all_results_ok. PARTIAL for the dynamic clause: that the traversal consults these functions at the right moments "
               "is covered by the traversal model of C03, not here."),
